@@ -84,6 +84,17 @@ def convertBool (text : Str) : Option (Option Bool) :=
   | some ("ParseBool", _) => some (parseBool text)
   | _ => none
 
+/-! ### occurrences of a query parameter (`bindQueryParams`) -/
+
+/-- a `repeated` field: EVERY occurrence of the parameter is converted, in order, each as one element
+(`for _, v := range values`); the first element that does not convert fails the request. -/
+def bindList {α β : Type} (conv : β → Option α) (occ : List β) : Option (List α) := occ.mapM conv
+
+/-- a singular field: the FIRST occurrence (`values[0]`); `some none` = the parameter is absent. -/
+def bindSingular {α β : Type} (conv : β → Option α) : List β → Option (Option α)
+  | [] => some none
+  | t :: _ => (conv t).map some
+
 /-- value range of each integer kind of protobuf. -/
 def kindRange (kind : String) : Option (Int × Int) :=
   match kind with
